@@ -24,7 +24,7 @@ LEVEL_TEXT += ' Added clauses: task lists built by append are followed; a run ne
 TECHNIQUE += '; refill polarity and discarding views of the task iterator (R1), dispatch exclusivity and index guards of parproc by path-state execution (R7), worker contract of taskproc interpreted with a scripted user function (R8)'
 LEVEL_TEXT += ' Added clauses: the refill runs whenever the run is not stopped; no islice start/step or filter skips tasks; exactly one emitting statement per path of parproc and no unguarded tasks[0]; taskproc stores outcome or exception and re-raises exactly when reraise is set or raises() names other types; a stopped task reports an exception.'
 TECHNIQUE += '; falsy outcomes in the worker contract'
-TECHNIQUE += '; exits of the loop over pending futures lie under a stop test'
+TECHNIQUE += '; exits of the loop over pending futures lie under a stop test; same-environment rule (no worker initializer, interpreter-wide set-up only inside the worker function)'
 LEVEL_TEXT += ' Added clause: the generator ends only when nothing is pending or the run is stopped.'
 LEVEL_NOTE = 'Trusted: concurrent.futures.as_completed iterates over a snapshot of the futures given and yields each exactly once.'
 EXPLANATION = ('Static analysis of /repo sources, TatSu not imported. executor_pmap is executed abstractly with an "owed result" '
@@ -634,4 +634,62 @@ def r9_collect_until_empty(a, tier):
     return rep
 
 
-RULES = [r1_draw_submit, r2_pop_yield, r3_snapshot, r4_same_worker, r5_capture, r6_fresh_run_state, r7_dispatch, r8_worker_contract, r9_collect_until_empty]
+WORKER_SETUP = {'sys.setrecursionlimit', 'setrecursionlimit', 'threading.stack_size', 'stack_size', 'resource.setrlimit', 'setrlimit', 'signal.signal', 'os.nice',
+                'sys.setswitchinterval'}
+
+
+def _pool_setup_sites(tree: ast.AST, in_worker_extent) -> list[tuple[str, ast.AST]]:
+    out = []
+    for n in ast.walk(tree):
+        if isinstance(n, ast.Call):
+            for kw in n.keywords:
+                if kw.arg in ('initializer', 'initargs') and not (isinstance(kw.value, ast.Constant) and kw.value.value in (None, ())):
+                    out.append((f'{kw.arg}= of {norm(n.func)}(...)', n))
+            if dotted(n.func) in WORKER_SETUP and not in_worker_extent(n):
+                out.append((f'{dotted(n.func)}(...) outside the worker function', n))
+    return out
+
+
+def r10_same_environment(a, tier):
+    rep = RuleReport(
+        'C18.R10',
+        'the payload function runs in the same environment on every path: parproc calls the worker function (taskproc) in the caller\'s '
+        'interpreter for the sequential mode and for a single task, and in pool workers otherwise, and the property demands the same '
+        'multiset of results from both. So (a) no executor / pool of tatsu/parproc is given a worker initializer (initializer= / initargs=: '
+        'set-up that only pool workers get), and (b) interpreter-wide set-up the payload depends on (recursion limit, stack size, '
+        'resource limits, signal handlers) is done only inside the worker function\'s own extent, which every path runs',
+        floor=3,
+    )
+    tp = a.p.func('tatsu.parproc.task.taskproc')
+    extent_nodes = set()
+    for f in a.extents.of(tp):
+        for n in ast.walk(f.node):
+            extent_nodes.add(id(n))
+    n_sites = 0
+    for mod in a.p.modules.values():
+        if not mod.name.startswith('tatsu.parproc'):
+            continue
+        pools = [n for n in ast.walk(mod.tree) if isinstance(n, ast.Call) and (any(kw.arg in ('max_workers', 'processes') for kw in n.keywords)
+                                                                            or dotted(n.func).split('.')[-1].endswith(('Executor', 'Pool')))]
+        setups = [n for n in ast.walk(mod.tree) if isinstance(n, ast.Call) and dotted(n.func) in WORKER_SETUP]
+        for n in pools:
+            n_sites += 1
+            rep.add({'module': mod.name, 'pool_or_executor_construction': norm(n.func), 'line': n.lineno, 'keywords': [kw.arg for kw in n.keywords]})
+        for n in setups:
+            rep.add({'module': mod.name, 'interpreter_setup': dotted(n.func), 'line': n.lineno, 'inside_worker_function': id(n) in extent_nodes})
+        for what, n in _pool_setup_sites(mod.tree, lambda n: id(n) in extent_nodes):
+            rep.fail(f'{mod.name}', f'worker-environment:{what.split("(")[0].strip()}', f'{what} ({mod.relpath}:{n.lineno}): set-up that only pool workers get, or that is done outside '
+                     f'{tp.qualname} - the sequential mode and the single-task shortcut call {tp.name} in the caller\'s interpreter and run the payload without it, '
+                     f'so a payload (deep recursion of a nested input) fails there and succeeds in the pool', f'{mod.relpath}:{n.lineno}')
+    # the detector itself, on a positive example (the expected number of findings on the repository is zero)
+    probe = ast.parse("def w():\n    sys.setrecursionlimit(9)\nwith Pool(max_workers=3, initializer=w) as ex:\n    pass\n")
+    hits = _pool_setup_sites(probe, lambda n: False)
+    rep.add({'detector_self_check': [h[0] for h in hits]})
+    if len(hits) != 2:
+        raise AnalysisError('C18.R10: the detector no longer recognises its positive example')
+    if n_sites < 2:
+        raise AnalysisError(f'C18.R10: only {n_sites} executor / pool constructions found in tatsu/parproc (hand-confirmed: 5)')
+    return rep
+
+
+RULES = [r1_draw_submit, r2_pop_yield, r3_snapshot, r4_same_worker, r5_capture, r6_fresh_run_state, r7_dispatch, r8_worker_contract, r9_collect_until_empty, r10_same_environment]
